@@ -9,3 +9,17 @@ mapping all() { return by_name; }
 mapping handles = ([]);
 void set_handle(string id, int h) { handles[id] = h; }
 int get_handle(string id) { return handles[id]; }
+mapping hooks = ([]);
+void set_hook(string base, string k, string ops) { hooks[base + ":" + k] = ops; }
+mixed get_hook(string base, string k) { return hooks[base + ":" + k]; }
+string *pending = ({ });
+void push_pending(string n) { pending += ({ n }); }
+void pop_pending() { if (sizeof(pending)) pending = pending[0..sizeof(pending)-2]; }
+// a freshly created clone claims the name of the innermost clone operation that has no object yet
+void claim(object ob) {
+  int i;
+  for (i = sizeof(pending) - 1; i >= 0; i--)
+    if (pending[i] != "" && !by_name[pending[i]]) { put(pending[i], ob); return; }
+}
+int autoc = 0;
+string auto_name() { autoc++; return "a" + autoc; }
